@@ -4,7 +4,8 @@ set -u
 cd "$(dirname "$0")/.."
 S=seeded/$1; P=$2; T=${3:-quick}
 if ! git -C /repo diff --quiet; then echo "refusing: /repo has uncommitted changes"; exit 3; fi
-git -C /repo apply "$PWD/$S/patch.diff" || exit 3
+PATCHF="$PWD/$S/patch.diff"; [ -f "$PWD/$S/patch.rebased.diff" ] && PATCHF="$PWD/$S/patch.rebased.diff"
+git -C /repo apply "$PATCHF" || exit 3
 /venv/bin/python -B check.py "$P" --tier "$T" > /tmp/seedtest.$$.log 2>&1; rc=$?
 git -C /repo checkout -- .
 grep -c "^VIOLATION" /tmp/seedtest.$$.log | sed "s/^/violations: /"
